@@ -71,6 +71,11 @@ thread_local! {
 }
 
 const WOULD_WAIT: &str = "WOULD-WAIT: blocking lock requested while the holder is frozen";
+const TOO_MANY_STEPS: &str = "TOO-MANY-STEPS: the solo call exceeded the step limit";
+/// instrumented events (before + after) the solo call may emit: 8 * (1 + c)
+/// atomic steps with c <= 3 completing updates is 64 events; 4 000 is far
+/// beyond anything a bounded retry loop produces.
+const STEP_LIMIT: usize = 4_000;
 
 fn with_ctl<T>(f: impl FnOnce(&mut Ctl) -> T) -> T {
     let mut g = CTL.lock().unwrap_or_else(|e| e.into_inner());
@@ -142,6 +147,12 @@ fn callback(ev: &verif_sync::Event) {
                 l.push(SoloEv { op: ev.op, after: ev.after, object: ev.object, value: ev.value });
                 l.len() - 1
             });
+            // A logical (not wall-clock) bound on the solo thread's own steps:
+            // the property promises a bounded number of steps, and the largest
+            // legitimate count in any scenario is a few dozen events.
+            if idx > STEP_LIMIT {
+                panic!("{}", TOO_MANY_STEPS);
+            }
             let mut g = CTL.lock().unwrap_or_else(|e| e.into_inner());
             let c = g.as_mut().expect("ctl");
             if ev.op == Op::Lock && !ev.after && c.lock_holder.is_some() && (c.frozen || c.w2_at_lock) {
@@ -399,6 +410,9 @@ fn judge(s: &Scenario, o: &Outcome, salt: u64) -> Result<(), Fail> {
         Err(p) if p.contains("WOULD-WAIT") => {
             return Err(v("would-wait", format!("{:?} requested a blocking lock while the lock's holder was suspended: it would wait for the writer", s.solo_op)));
         }
+        Err(p) if p.contains("TOO-MANY-STEPS") => {
+            return Err(v("unbounded-steps", format!("{:?} performed more than {} instrumented steps without completing (it spins instead of finishing in a bounded number of its own steps)", s.solo_op, STEP_LIMIT)));
+        }
         Err(p) => return Err(v("solo-panic", format!("{:?} panicked: {}", s.solo_op, p))),
         Ok(r) => *r,
     };
@@ -537,7 +551,8 @@ fn run_static_scenario(freeze_at: usize, blocking: bool, solo_observes: bool, di
     let _ = solo.join();
     let v = |sig: &str, what: String| Fail { sig: sig.to_string(), what, inconclusive: false };
     let pair = match r {
-        Err(p) if p.contains("WOULD-WAIT") => return Err(v("would-wait", "get_base_time_unlocked requested a blocking lock while the lock's holder was suspended".into())),
+        Err(p) if p.contains("WOULD-WAIT") => return Err(v("would-wait", "the solo call requested a blocking lock while the lock's holder was suspended".into())),
+        Err(p) if p.contains("TOO-MANY-STEPS") => return Err(v("unbounded-steps", "the solo call on the static base time exceeded the step limit without completing".into())),
         Err(p) => return Err(v("solo-panic", format!("get_base_time_unlocked panicked: {}", p))),
         Ok(Err(e)) => return Err(v("unlocked-failed", format!("get_base_time_unlocked failed: {}", e))),
         Ok(Ok(p)) => p,
